@@ -288,6 +288,11 @@ impl CallHelper {
         args.prepare_registers(&mut regs);
         regs.update(Register::Rax, fn_addr);
         regs.update(Register::Rip, rip);
+        // the interrupted function may keep data in the red zone (128 bytes below the stack
+        // pointer), and the ABI wants the stack 16-byte aligned at the call instruction
+        const RED_ZONE: u64 = 128;
+        let sp = ccx.regs.value(Register::Rsp).saturating_sub(RED_ZONE) & !0xf;
+        regs.update(Register::Rsp, sp);
         regs.persist(ccx.pid)?;
 
         debug!(target: "debugger", "call a function, wait until breakpoint are hit");
